@@ -191,6 +191,9 @@ func runUDP(rc *RunCtx, which string) {
 	m := &RecMetrics{}
 	if which == "c16" {
 		m.Inner = newPromMetrics(rc)
+		if F.Draw(3) == 1 {
+			w.UDPWriteErrBound = []int{100, 400}[F.Draw(2)] // replies to the client fail now and then
+		}
 	}
 	srv := startUDPServer(rc, w, udpServerOpts{Keys: cfg, Timeout: 5 * time.Minute, Metrics: m})
 	r := &udpRun{which: which, rc: rc, w: w, srv: srv, keys: cfg, tspecs: map[string]*tSpec{}, specs: map[string]*uSpec{}}
@@ -239,7 +242,7 @@ func runUDP(rc *RunCtx, which string) {
 					nReply++
 					sz := []int{0, 1, 30, 500, 1400}[G.Draw(5)]
 					if bigReplies {
-						sz = []int{9000, 65000, 65400, 65507 - 20}[G.Draw(4)]
+						sz = []int{9000, 65000, 65400, 65450, 65507 - 20}[G.Draw(5)]
 					}
 					id := fmt.Sprintf("t%d-%d", ti, nReply)
 					p := append([]byte(id+"|"), payload(G, sz)...)
